@@ -600,6 +600,74 @@ func rulePublish(c *Ctx) {
 		}
 	}
 	c.census("C-PUBLISH", "PublishDiagnostics call sites reachable from goroutine roots", nSites, 1)
+	// handler clause: a publication made synchronously by a handler (not on a goroutine the server starts) competes
+	// with the analyses still in flight for earlier versions.  It is either version-guarded like the others, or every
+	// path to it passes a bump of the document's version first - otherwise an older analysis is still "current" when
+	// it finishes and publishes last (C13-m29: an emptied document gets its diagnostics cleared at once, without a new
+	// generation, and the analysis of the previous text publishes its errors afterwards).
+	isBump := func(ins ssa.Instruction) bool {
+		call, ok := ins.(ssa.CallInstruction)
+		if !ok {
+			return false
+		}
+		cal := call.Common().StaticCallee()
+		return cal != nil && inModule(cal) && bumpsVersionUnderLock(ci, cal)
+	}
+	var bumpedBefore func(f *ssa.Function, b *ssa.BasicBlock, at ssa.Instruction, depth int) bool
+	bumpedBefore = func(f *ssa.Function, b *ssa.BasicBlock, at ssa.Instruction, depth int) bool {
+		for _, b2 := range f.Blocks {
+			for _, x := range b2.Instrs {
+				if !isBump(x) {
+					continue
+				}
+				if b2 == b {
+					for _, y := range b.Instrs {
+						if y == x {
+							return true
+						}
+						if y == at {
+							break
+						}
+					}
+				} else if b2.Dominates(b) {
+					return true
+				}
+			}
+		}
+		if depth >= 3 {
+			return false
+		}
+		sites := (cgView{c}).callersOf(f)
+		if len(sites) == 0 {
+			return false
+		}
+		for _, site := range sites {
+			if !bumpedBefore(site.Parent(), site.Block(), site, depth+1) {
+				return false
+			}
+		}
+		return true
+	}
+	nSync := 0
+	for _, f := range ci.funcs {
+		if ci.reachG[f] {
+			continue
+		}
+		for _, b := range f.Blocks {
+			for _, ins := range b.Instrs {
+				call, ok := ins.(ssa.CallInstruction)
+				if !ok || !isPublishCall(call) {
+					continue
+				}
+				nSync++
+				ok1, _ := ci.publishGuarded(f, b, ins, 0)
+				c.check(ok1 || bumpedBefore(f, b, ins, 0), "C-PUBLISH", funcName(f), "PublishDiagnostics made synchronously by a handler", ins.Pos(),
+					"the publication is version-guarded or every path to it bumps the document's version first",
+					"a handler publishes diagnostics itself, neither under the version guard nor after taking a new version for the document: analyses of earlier versions that are still running stay 'current', finish later and publish their result over this one - the client is left with diagnostics of a superseded text")
+			}
+		}
+	}
+	c.note("C-PUBLISH: %d synchronous publication sites", nSync)
 	// the version is taken synchronously in the handler: every go statement whose target reaches a publish
 	// receives, as an argument, the result of a call made before the go statement in the same handler to a
 	// function that updates (map update / store) the state compared by the guard, under the same lock.
